@@ -27,8 +27,10 @@ def parseVars (s : String) : Vars :=
 structure Case where
   proc : Proc := { nodes := [], flows := [] }
   vars : Vars := []
-  /-- the recorded run: per segment the observations, then the op that ends the segment -/
+  /-- the recorded run: per segment the observations, then the op that ends the segment;
+      the flag says the op was issued without waiting for quiescence (`opnw`) -/
   segs : List (List String × Option (List String)) := []
+  nowait : List Nat := []      -- indices of segments whose closing op was `opnw`
   final : Option (List String) := none
   bad : List String := []
   notes : List String := []      -- `obs noquiesce`, `obs ret … blocked`
@@ -51,6 +53,10 @@ def parseCase (lines : List String) : Case := Id.run do
     | ["prog", "vars", vs] => c := { c with vars := parseVars vs }
     | "op" :: rest =>
       c := { c with segs := c.segs ++ [(cur, some rest)] }
+      cur := []
+    | "opnw" :: rest =>
+      -- observations before and after an op issued without waiting belong to one segment
+      c := { c with nowait := c.nowait ++ [c.segs.length + 1], segs := c.segs ++ [(cur, some rest)] }
       cur := []
     | "obs" :: "final" :: rest => c := { c with final := some rest }
     | ["obs", "noquiesce"] => c := { c with notes := c.notes ++ ["noquiesce"] }
@@ -118,16 +124,25 @@ def replay (cfg : Cfg) (c : Case) : Replay := Id.run do
   let mut i := 0
   let mut reqs := 0
   let mut log : List (List String) := []
+  let mut carryM : List Obs := []
+  let mut carryR : List String := []
   for (obs, op) in c.segs do
     log := log ++ [s.causes]
     if let some why := s.outOfScope then
       return { oos := some why, causes := s.causes, causesAt := log, failAt := i }
-    let m := modelObs p s.obs
-    let r := implObs p obs
-    reqs := reqs + (m.filter (·.startsWith "req ")).length
-    if m != r then
-      return { mismatch := some (i, " ; ".intercalate m, " ; ".intercalate r), causes := s.causes, reqs,
-               causesAt := log, failAt := i }
+    if c.nowait.contains i then
+      -- no comparison at this boundary: carry the observations of both sides over to the next one
+      carryM := carryM ++ s.obs
+      carryR := carryR ++ obs
+    else
+      let m := modelObs p (carryM ++ s.obs)
+      let r := implObs p (carryR ++ obs)
+      carryM := []
+      carryR := []
+      reqs := reqs + (m.filter (·.startsWith "req ")).length
+      if m != r then
+        return { mismatch := some (i, " ; ".intercalate m, " ; ".intercalate r), causes := s.causes, reqs,
+                 causesAt := log, failAt := i }
     match op with
     | none => pure ()
     | some ws =>
